@@ -26,76 +26,93 @@ func runC20(c *Ctx) {
 	// ---------------------------------------------------------------- C20.1
 	c.Rule("C20.1", "unknown message types fall back to dynamic messages built from the method's own descriptor", 2)
 	regMethod := p.MustFunc("(*Transcoder).registerMethod")
-	for _, call := range Calls(regMethod) {
-		cv, ok := call.(*ssa.Call)
-		if !ok || !cv.Call.IsInvoke() || N(cv.Call.Method) != "FindMessageByName" {
-			continue
+	// the lookups may sit in registerMethod or in a helper it calls
+	var lookupFns []*ssa.Function
+	for _, fn := range SortedFuncs(p.Reach(regMethod)) {
+		if p.inScope(fn) && (fn == regMethod || p.OnlyCalledWithin(fn, regMethod)) {
+			lookupFns = append(lookupFns, fn)
 		}
-		c.CountSite()
-		var errVal ssa.Value
-		for _, ref := range *cv.Referrers() {
-			if ex, ok := ref.(*ssa.Extract); ok && ex.Index == 1 {
-				errVal = ex
+	}
+	// sameDescriptor: the same value, or the same accessor invoked on the same receiver
+	sameDescriptor := func(a, b ssa.Value) bool {
+		if a == b {
+			return true
+		}
+		ca, okA := a.(*ssa.Call)
+		cb, okB := b.(*ssa.Call)
+		if okA && okB && ca.Call.IsInvoke() && cb.Call.IsInvoke() && N(ca.Call.Method) == N(cb.Call.Method) {
+			return ca.Call.Value == cb.Call.Value || PathOf(ca.Call.Value) == PathOf(cb.Call.Value)
+		}
+		return false
+	}
+	for _, lf := range lookupFns {
+		lf := lf
+		for _, call := range Calls(lf) {
+			cv, ok := call.(*ssa.Call)
+			if !ok || !cv.Call.IsInvoke() || N(cv.Call.Method) != "FindMessageByName" {
+				continue
 			}
-		}
-		// which descriptor accessor feeds the name: Input() or Output()
-		accessor := ""
-		for _, l := range Origins(cv.Call.Args[0]) {
-			if l.Kind == "call" && l.Call.Common().IsInvoke() && N(l.Call.Common().Method) == "FullName" {
-				for _, l2 := range Origins(l.Call.Common().Value) {
-					if l2.Kind == "call" && l2.Call.Common().IsInvoke() {
-						accessor = N(l2.Call.Common().Method)
+			c.CountSite()
+			var errVal ssa.Value
+			for _, ref := range *cv.Referrers() {
+				if ex, ok := ref.(*ssa.Extract); ok && ex.Index == 1 {
+					errVal = ex
+				}
+			}
+			// the descriptor whose FullName() is looked up
+			var desc ssa.Value
+			accessor := "descriptor"
+			for _, l := range Origins(cv.Call.Args[0]) {
+				if l.Kind == "call" && l.Call.Common().IsInvoke() && N(l.Call.Common().Method) == "FullName" {
+					desc = l.Call.Common().Value
+					if dc, ok := desc.(*ssa.Call); ok && dc.Call.IsInvoke() {
+						accessor = N(dc.Call.Method)
 					}
 				}
 			}
-		}
-		var isCall *ssa.Call
-		if errVal != nil {
-			for _, ref := range *errVal.Referrers() {
-				if ic, ok := ref.(*ssa.Call); ok && IsCallTo(ic, "errors.Is") {
-					if g, ok := ic.Call.Args[1].(*ssa.UnOp); ok {
-						if gl, ok := g.X.(*ssa.Global); ok && N(gl) == "NotFound" {
-							isCall = ic
+			var isCall *ssa.Call
+			if errVal != nil {
+				for _, ref := range *errVal.Referrers() {
+					if ic, ok := ref.(*ssa.Call); ok && IsCallTo(ic, "errors.Is") {
+						if g, ok := ic.Call.Args[1].(*ssa.UnOp); ok {
+							if gl, ok := g.X.(*ssa.Global); ok && N(gl) == "NotFound" {
+								isCall = ic
+							}
 						}
 					}
 				}
 			}
-		}
-		if isCall == nil {
-			c.Bad("C20.1", FuncName(regMethod), "notfound-tested:"+accessor, cv.Pos(), "the type lookup's error is not tested against protoregistry.NotFound: an unknown type fails registration instead of falling back to a dynamic message")
-			continue
-		}
-		var iff *ssa.If
-		for _, ref := range *isCall.Referrers() {
-			if i2, ok := ref.(*ssa.If); ok {
-				iff = i2
+			if isCall == nil {
+				c.Bad("C20.1", FuncName(lf), "notfound-tested:"+accessor, cv.Pos(), "the type lookup's error is not tested against protoregistry.NotFound: an unknown type fails registration instead of falling back to a dynamic message")
+				continue
 			}
-		}
-		if iff == nil {
-			c.Bad("C20.1", FuncName(regMethod), "notfound-branch:"+accessor, cv.Pos(), "the NotFound test does not control a branch")
-			continue
-		}
-		isDyn := func(in ssa.Instruction) bool {
-			dc, ok := in.(*ssa.Call)
-			if !ok || !IsCallTo(dc, "google.golang.org/protobuf/types/dynamicpb.NewMessageType") {
-				return false
-			}
-			for _, l := range Origins(dc.Call.Args[0]) {
-				if l.Kind == "call" && l.Call.Common().IsInvoke() && N(l.Call.Common().Method) == accessor {
-					return true
+			var iff *ssa.If
+			for _, ref := range *isCall.Referrers() {
+				if i2, ok := ref.(*ssa.If); ok {
+					iff = i2
 				}
 			}
-			return false
+			if iff == nil {
+				c.Bad("C20.1", FuncName(lf), "notfound-branch:"+accessor, cv.Pos(), "the NotFound test does not control a branch")
+				continue
+			}
+			isDyn := func(in ssa.Instruction) bool {
+				dc, ok := in.(*ssa.Call)
+				if !ok || !IsCallTo(dc, "google.golang.org/protobuf/types/dynamicpb.NewMessageType") {
+					return false
+				}
+				return desc != nil && sameDescriptor(dc.Call.Args[0], desc)
+			}
+			succ := iff.Block().Succs[0]
+			okDyn := len(succ.Instrs) > 0 && (isDyn(succ.Instrs[0]) || func() bool {
+				ok, _ := MustPassToExit(lf, succ.Instrs[0], isDyn, IsReturn, nil)
+				return ok
+			}())
+			// and no error return directly in the NotFound branch before the dynamic type is made
+			c.Check(okDyn, "C20.1", FuncName(lf), "notfound-installs-dynamic:"+accessor, cv.Pos(),
+				"on NotFound a dynamicpb message type of the very descriptor that was looked up is installed on every path",
+				"on NotFound the looked-up type is not replaced by a dynamic message type of the same descriptor (registration fails or uses a wrong descriptor)")
 		}
-		succ := iff.Block().Succs[0]
-		okDyn := len(succ.Instrs) > 0 && (isDyn(succ.Instrs[0]) || func() bool {
-			ok, _ := MustPassToExit(regMethod, succ.Instrs[0], isDyn, IsReturn, nil)
-			return ok
-		}())
-		// and no error return directly in the NotFound branch before the dynamic type is made
-		c.Check(okDyn, "C20.1", FuncName(regMethod), "notfound-installs-dynamic:"+accessor, cv.Pos(),
-			"on NotFound a dynamicpb message type of the method's own "+accessor+"() descriptor is installed on every path",
-			"on NotFound the method's "+accessor+"() type is not replaced by a dynamic message type (registration fails or uses a wrong descriptor)")
 	}
 	for _, fname := range []string{"requestType", "responseType"} {
 		fld := p.MustField("methodConfig", fname)
@@ -103,7 +120,7 @@ func runC20(c *Ctx) {
 		for _, fn := range p.Funcs {
 			for _, st := range StoresToField(fn, fld) {
 				dyn, found := false, false
-				for _, l := range Origins(st.Val) {
+				for _, l := range p.OriginsDeep(st.Val) {
 					if l.Kind == "call" && IsCallTo(l.Call, "google.golang.org/protobuf/types/dynamicpb.NewMessageType") {
 						dyn = true
 					}
